@@ -116,6 +116,17 @@ def cases(tier, rng, dist):
     for _ in range(6 if tier == "quick" else 40):
         dist.add("design", "seed_kinds")
         yield {"d": "seed_kinds", "f": "prng", "seed": real_seed(rng), "gseed": rng.randint(0, 10**6)}
+    # "sign vectors over all 2^n", "allocations over all subsets", "label vectors over all arrangements" for LONG samples too: with 64
+    # repetitions under a real generator every unit is flipped / allocated to either side at least once (except with probability
+    # 2^-63 per unit).  Sizes: beyond every block size a bulk draw might use (8, 32, 64, 256 bits) and just beyond every integer
+    # constant that occurs in the source of the modules (harness/sizes.py), never a multiple of it
+    from .. import sizes
+    ns = [259, 300, 515] + [v for v in sizes.beyond(["core", "utils", "ksample"], cap=6000) if v >= 40]
+    for k, n in enumerate(ns[:12] if tier == "quick" else ns[:40]):
+        for fn in (("one_sample", "two_sample", "k_sample") if (tier == "thorough" or k < 3) else ("one_sample",)):
+            for rs in ((False, True) if tier == "thorough" else (False,)):
+                dist.add("design", "coverage")
+                yield {"d": "coverage", "f": "coverage", "fn": fn, "n": n + (k % 2 if n % 8 == 0 else 0), "reps": 64, "seed": rng.randint(0, 10**9), "rs": rs}
 
 
 def xvals(c):
@@ -132,6 +143,9 @@ def run(c):
     if d == "seed_kinds":
         from ..core_runs import run_prng
         return run_prng(c)
+    if d == "coverage":
+        from ..core_runs import run_coverage
+        return run_coverage(c)
     if d == "permute":
         x = np.array(c["x"], dtype=float)
         leaves = explore(lambda t: tuple(float(v) for v in utils.permute(x, t)))
@@ -283,6 +297,9 @@ def oracle(c, o):
     if d == "seed_kinds":
         from ..core_runs import oracle_prng
         return oracle_prng(c, o)
+    if d == "coverage":
+        from ..core_runs import oracle_coverage
+        return oracle_coverage(c, o)
     if d == "rs_structure":
         want = {"two_sample": [["shuffle", 7]] * 2, "one_sample": [["randint", 0, 2, 3]] * 2, "permute": [["random", 4]],
                 "pwg": [["random", 2], ["random", 3]]}
@@ -415,7 +432,7 @@ def to_coq(c, o):
 
 def extra_terms(c, o):
     d = c["d"]; out = []
-    if d == "seed_kinds":
+    if d in ("seed_kinds", "coverage"):
         return out
     if d == "permute":
         x = [Fraction(v) for v in c["x"]]
@@ -439,7 +456,7 @@ def extra_terms(c, o):
 
 
 def nontrivial(c, o):
-    return c["d"] in ("rs_structure", "seed_kinds") or len(o.get("outcomes", [])) > 1
+    return c["d"] in ("rs_structure", "seed_kinds", "coverage") or len(o.get("outcomes", [])) > 1
 
 
 def key(c):
